@@ -24,6 +24,12 @@ WEAK = {
     "PruneDropsCheckpoint": ("C18_weak_PruneDropsCheckpoint.cfg", ["AuditAfterReopen", "AuditLive"]),
     "PruneDropsParamsChanged": ("C18_weak_PruneDropsParamsChanged.cfg", ["AuditAfterReopen", "AuditLive"]),
 }
+# reachability goals (negated as invariants): the model does prune more than one batch and does
+# leave LastHeightChanged / checkpoint records behind
+GOALS = {
+    "a prune of more than one batch is reachable": ("C18_goal_TwoBatchPrune.cfg", ["NeverTwoBatchPrune"]),
+    "a kept validator record below the retain height is reachable": ("C18_goal_KeptRecord.cfg", ["NeverKeptRecord"]),
+}
 
 # model constants of the replayed state graphs: name -> (base cfg, overrides, harness cfg)
 def graph_models(quick):
@@ -114,6 +120,32 @@ def trie_insert(forest, ops):
             kids = node["children"]
 
 
+def cons_ops(ops):
+    """the same history with every prune done by consensus.State.pruneBlocks (one call)"""
+    out = []
+    i = 0
+    while i < len(ops):
+        o = ops[i]
+        if o["op"] == "PruneBlocks":
+            c = {"op": "ConsPrune", "a": o["a"], "b": 0, "crash": o["crash"]}
+            if o["crash"] == -1 and i + 1 < len(ops):
+                nx = ops[i + 1]
+                if nx["op"] == "PruneStates":
+                    if nx["crash"] >= 0:
+                        c["crash"], c["crash_part"] = nx["crash"], "s"
+                    i += 1
+                elif nx["op"] == "Reopen":
+                    c["crash"], c["crash_part"] = 0, "s"      # crash between the two stores
+                    i += 1
+            out.append(c)
+        elif o["op"] == "PruneStates":
+            pass        # only after a completed PruneBlocks, handled above
+        else:
+            out.append(o)
+        i += 1
+    return out
+
+
 def harness_cfg(consts, offset):
     return {"initial": consts["Initial"], "boot": consts["Boot"], "maxheight": consts["MaxHeight"],
             "twopart": consts["TwoPart"], "valchg": consts["ValChg"], "parchg": consts["ParChg"],
@@ -123,10 +155,11 @@ def harness_cfg(consts, offset):
 def long_run(n, retain, sample_every, crash_at=None):
     """A chain of n blocks built without audits, then one prune that crosses the code's
     1000-block flush interval, every (or every sampled) crash prefix audited."""
-    ops = [{"op": "Genesis", "crash": -1, "audit": "none"}]
+    ops = [{"op": "Genesis", "crash": -1, "audit": "silent"}]
     for h in range(1, n + 1):
-        ops.append({"op": "SaveBlock", "a": h, "crash": -1, "audit": "none"})
-        ops.append({"op": "ApplyBlock", "a": h, "crash": -1, "audit": "none"})
+        ops.append({"op": "SaveBlock", "a": h, "crash": -1, "audit": "silent"})
+        ops.append({"op": "ApplyBlock", "a": h, "crash": -1, "audit": "silent"})
+    ops.append({"op": "Load"})      # the trace gets the abstraction of the whole databases instead
     mode = "sample" if sample_every > 1 else "all"
     ops.append({"op": "PruneBlocks", "a": retain, "crash": -1 if crash_at is None else crash_at, "audit": mode})
     if crash_at is None:
@@ -161,22 +194,26 @@ def check_weak(ctx):
 
     def one(item):
         sw, (cfg, invs) = item
-        r = ctx.tlc("C18_node", cfg, timeout=600, workers=2, heap="2g", label="weak_" + sw)
+        r = ctx.tlc("C18_node", cfg, timeout=600, workers=2, heap="2g", label="weak_" + sw.replace(" ", "_")[:40])
         return sw, r, invs
 
     with ThreadPoolExecutor(max_workers=4) as ex:
-        for sw, r, invs in ex.map(one, WEAK.items()):
+        for sw, r, invs in ex.map(one, list(WEAK.items()) + list(GOALS.items())):
             if r.timed_out or r.errors:
                 raise Undecided("weak config %s: TLC error/timeout %s" % (sw, r.errors[:1]))
             hit = [v["name"] for v in r.violations if v["name"] in invs]
             if not hit:
-                raise Undecided("vacuity: weakened spec Weak_%s is not refuted (%s expected)" % (sw, invs))
-            res["Weak_%s refuted by TLC" % sw] = hit[0]
+                raise Undecided("vacuity: %s: TLC does not refute %s" % (sw, invs))
+            if sw in WEAK:
+                res["Weak_%s refuted by TLC" % sw] = hit[0]
+            else:
+                res[sw] = True
     return res
 
 
 def build_inputs(ctx, quick):
-    runs = []
+    runs, cruns = [], []
+    cons_models = ("main",) if quick else ("main", "ckpt", "boot")
     gstats = {}
     for name, (base, over, offset) in graph_models(quick).items():
         cfg = core.cfg_variant(ctx, base, "C18_g_%s.cfg" % name, over)
@@ -189,19 +226,59 @@ def build_inputs(ctx, quick):
         hc = harness_cfg(consts, offset)
         scheds = [ops for ops in (path_to_ops(g, nodes) for nodes in core.graph_schedules(g)) if ops]
         n = len(scheds)
+        ncons = 0
         # a forest of histories sharing prefixes; big graphs are cut into several forests so
         # that trace validation can run in parallel
         per = max(1, (n + 7) // 8) if n > 400 else n
         for i in range(0, n, per):
-            forest = []
+            forest, cforest = [], []
             for ops in scheds[i:i + per]:
                 trie_insert(forest, ops)
+                if name in cons_models and any(o["op"] == "PruneBlocks" for o in ops):
+                    trie_insert(cforest, cons_ops(ops))
+                    ncons += 1
             runs.append({"cfg": hc, "tree": forest, "label": "graph:" + name})
-        gstats[name] = {"states": len(g.nodes), "transitions": len(g.edges), "schedules": n,
+            if cforest and name in cons_models:
+                cruns.append({"cfg": hc, "tree": cforest, "label": "graph-cons:" + name})
+        gstats[name] = {"states": len(g.nodes), "transitions": len(g.edges), "schedules": n, "cons_schedules": ncons,
                         "generated": r.generated, "distinct": r.distinct}
         if len(g.nodes) != r.distinct:
             raise Undecided("graph %s: parsed %d of %d states" % (name, len(g.nodes), r.distinct))
-    return runs, gstats
+    return runs, cruns, gstats
+
+
+HARNESS_FILES = {
+    "store": ["zz_verif_c18_test.go", "zz_verif_c18_lib.go"],
+    "state": ["zz_verif_c18_test.go"],
+    # the store-level library is injected into package store, the driver into package consensus
+    "consensus": ["zz_verif_c18_test.go", os.path.join(core.VERIF, "harness", "inpkg", "store", "zz_verif_c18_lib.go")],
+}
+
+
+def build_harness(ctx, pkg):
+    """like ctx.go_build_test, but the consensus driver needs a file injected into ANOTHER package (store)"""
+    if pkg != "consensus":
+        return ctx.go_build_test(pkg, HARNESS_FILES[pkg], name="c18_" + pkg)
+    import subprocess
+    import time
+    ov = {"Replace": {
+        os.path.join(ctx.repo, "consensus", "zz_verif_c18_test.go"):
+            os.path.join(core.VERIF, "harness", "inpkg", "consensus", "zz_verif_c18_test.go"),
+        os.path.join(ctx.repo, "store", "zz_verif_c18_lib.go"):
+            os.path.join(core.VERIF, "harness", "inpkg", "store", "zz_verif_c18_lib.go")}}
+    ovp = os.path.join(ctx.work, "overlay-c18-consensus.json")
+    with open(ovp, "w") as fh:
+        json.dump(ov, fh)
+    binp = os.path.join(ctx.work, "c18_consensus.test")
+    cmd = ["go", "test", "-c", "-vet=off", "-tags", "verif", "-overlay", ovp, "-o", binp, "./consensus"]
+    t0 = time.time()
+    p = subprocess.run(cmd, cwd=ctx.repo, env=ctx.go_env(), stdout=subprocess.PIPE, stderr=subprocess.STDOUT)
+    log("go build consensus (+store lib): rc=%d %.1fs" % (p.returncode, time.time() - t0))
+    if p.returncode != 0:
+        ctx.save_log("gobuild-consensus", p.stdout.decode("utf-8", "replace"))
+        raise Undecided("C18 consensus harness does not compile against %s:\n%s" % (
+            ctx.repo, p.stdout.decode("utf-8", "replace")[-3000:]))
+    return binp
 
 
 def run_harness(ctx, pkg, test, inp_obj, outname, timeout=1500):
@@ -209,7 +286,7 @@ def run_harness(ctx, pkg, test, inp_obj, outname, timeout=1500):
     with open(inp, "w") as f:
         json.dump(inp_obj, f)
     out = ctx.subdir("c18-out-" + pkg.replace("/", "_"))
-    binp = ctx.go_build_test(pkg, ["zz_verif_c18_test.go"], name="c18_" + pkg.replace("/", "_"))
+    binp = build_harness(ctx, pkg)
     rc, txt = ctx.run_test(binp, test, {"VERIF_IN": inp, "VERIF_OUT": out}, timeout=timeout)
     if rc != 0:
         ctx.save_log("harness-" + pkg.replace("/", "_"), txt)
@@ -245,8 +322,17 @@ def add_verdicts(verdict, v):
                 oprow = p
                 break
         sig = {"inv": x["inv"], "class": x["class"], "op": x["op"]}
-        hist = [{k: p[k] for k in ("ev", "op", "a", "b", "res", "k", "n") if k in p}
-                for p in x["prefix"] if p.get("ev") in ("Op", "Reopen")]
+        # the history that leads to the failing image: the run is a depth-first walk of a tree of
+        # histories (Push / Pop), only the current branch counts
+        hist, marks = [], []
+        for p in x["prefix"]:
+            ev = p.get("ev")
+            if ev == "Push":
+                marks.append(len(hist))
+            elif ev == "Pop":
+                hist = hist[:marks.pop()]
+            elif ev in ("Op", "Reopen"):
+                hist.append({k: p[k] for k in ("ev", "op", "a", "b", "res", "k", "n") if k in p})
         reset = x["prefix"][0] if x["prefix"] and x["prefix"][0].get("ev") == "Reset" else None
         verdict.add(sig, {"failing_step": row, "operation": oprow, "crash_prefix_k": x["k"],
                           "chain": reset, "history": hist,
@@ -261,20 +347,20 @@ def run(ctx):
     nonvac = check_weak(ctx)
 
     # ---- 2. behaviours out of TLC: act-augmented graphs -> schedules ----------------------
-    runs, gstats = build_inputs(ctx, quick)
+    runs, cruns, gstats = build_inputs(ctx, quick)
     if quick:
-        runs.append(long_run(1005, 1003, 40))
-        nrandom = 40
+        longs = [long_run(1005, 1003, 40)]
+        nrandom, ncrandom, nsrandom = 30, 12, 30
     else:
-        runs.append(long_run(2104, 2102, 1))
-        runs.append(long_run(1010, 1005, 25, crash_at=2400))
-        nrandom = 400
+        longs = [long_run(2104, 2102, 1), long_run(1010, 1005, 25, crash_at=2400)]
+        nrandom, ncrandom, nsrandom = 400, 150, 300
+    runs += longs
 
     # ---- 3. replay on the real stores -------------------------------------------------------
     # a harness that dies on an edited tree must not hide what the other one observes: its
     # failure is remembered and becomes exit 2 only if no violation was observed elsewhere
     dead = []
-    rows, hstats, rows_s, sstats = [], {}, [], {}
+    rows, hstats, rows_s, sstats, rows_c, cstats = [], {}, [], {}, [], {}
     try:
         rows, hstats = run_harness(ctx, "store", "^TestVerifC18$", {"runs": runs, "random": nrandom}, "store.ndjson",
                                    timeout=2400)
@@ -283,26 +369,33 @@ def run(ctx):
         dead.append(str(e))
     try:
         rows_s, sstats = run_harness(ctx, "state", "^TestVerifC18State$",
-                                     {"tier": ctx.tier, "random": 30 if quick else 300}, "state.ndjson", timeout=1800)
+                                     {"tier": ctx.tier, "random": nsrandom}, "state.ndjson", timeout=1800)
         check_cfgs(rows_s)
     except Undecided as e:
         dead.append(str(e))
-    if len(dead) == 2:
-        raise Undecided("both C18 harnesses failed: " + dead[0][:1500])
+    try:
+        rows_c, cstats = run_harness(ctx, "consensus", "^TestVerifC18Consensus$",
+                                     {"runs": cruns, "random": ncrandom}, "consensus.ndjson", timeout=1800)
+        check_cfgs(rows_c)
+    except Undecided as e:
+        dead.append(str(e))
+    if len(dead) == 3:
+        raise Undecided("all C18 harnesses failed: " + dead[0][:1500])
 
     # ---- 4. trace validation ------------------------------------------------------------------
-    with ThreadPoolExecutor(max_workers=2) as ex:
-        f1 = ex.submit(core.validate_traces, ctx, "TMStoreTrace", rows, None, 2500, 1800, "store", "4g")
-        f2 = ex.submit(core.validate_traces, ctx, "TMStoreTrace", rows_s, None, 2500, 1800, "state", "4g")
-        v1, v2 = f1.result(), f2.result()
+    with ThreadPoolExecutor(max_workers=3) as ex:
+        fs = [ex.submit(core.validate_traces, ctx, "TMStoreTrace", rr, None, 4000, 1800, lab, "4g")
+              for rr, lab in ((rows, "store"), (rows_s, "state"), (rows_c, "consensus")) if rr]
+        vs = [f.result() for f in fs]
 
     # ---- 5. verdict ----------------------------------------------------------------------------
     verdict = core.Verdict(ctx)
-    add_verdicts(verdict, v1)
-    add_verdicts(verdict, v2)
-    drift = v1["drift"] + v2["drift"]
+    drift = []
+    for v in vs:
+        add_verdicts(verdict, v)
+        drift += v["drift"]
 
-    allrows = rows + rows_s
+    allrows = rows + rows_s + rows_c
     distinct = set()
     opkinds = {}
     crash_images = 0
@@ -324,7 +417,11 @@ def run(ctx):
     coverage = {
         "states": sum(r.distinct for r in exh.values()) + sum(g["distinct"] for g in gstats.values()),
         "transitions": sum(r.generated for r in exh.values()) + sum(g["generated"] for g in gstats.values()),
-        "traces_validated_against_impl": sum(g["schedules"] for g in gstats.values()) + nrandom + 1 + v2["runs"],
+        # histories executed on real code and accepted: root-to-leaf paths of the replayed graphs
+        # (store level and consensus level), long-chain runs, random runs, state-store scenarios
+        "traces_validated_against_impl": (sum(g["schedules"] + g["cons_schedules"] for g in gstats.values()) + len(longs)
+                                          + (nrandom if rows else 0) + (ncrandom if rows_c else 0)
+                                          + sum(1 for r in rows_s if r["ev"] == "Reset")),
         "evaluations": crash_images,
         "distinct_nontrivial": len(distinct),
         "rule": "a crash image = (operation, its last writes, persisted and in-memory range descriptor, projection of "
@@ -339,8 +436,9 @@ def run(ctx):
         "replayed_graphs": gstats,
         "operations_executed": opkinds,
         "crash_images_audited": crash_images,
-        "harness_stats": {"store": hstats, "state": sstats},
-        "proposer_priority_mismatches_observed(info, not judged)": hstats.get("prio_mismatch", 0) + sstats.get("prio_mismatch", 0),
+        "harness_stats": {"store": hstats, "state": sstats, "consensus": cstats},
+        "trace_lines_validated": sum(v["events"] for v in vs),
+        "proposer_priority_mismatches_observed(info, not judged)": hstats.get("prio_mismatch", 0) + sstats.get("prio_mismatch", 0) + cstats.get("prio_mismatch", 0),
         "conformance_drift": [{"what": d["what"], "step": core.abridge(json.dumps(d["row"])[:400])} for d in drift[:5]],
         "conformance_drift_count": len(drift),
         "nonvacuity": nonvac,
@@ -374,16 +472,38 @@ def replay(ctx, path):
         rep = json.load(f)
     r = rep["replay"]
     chain = r.get("chain")
-    if not chain:
+    if not chain or not chain.get("hcfg"):
         raise Undecided("replay file has no chain description")
-    c = chain["cfg"]
-    k = r["crash_prefix_k"]
+    c, hc = chain["cfg"], chain["hcfg"]
+    state_only = "block" not in c["chk"]
+    cons = any(h.get("op") == "ConsPrune" for h in r["history"])
+    off = c.get("offset", 0)
     ops = []
     for h in r["history"]:
         if h["ev"] == "Op":
-            ops.append({"op": h["op"], "a": h["a"], "b": h["b"] if h["op"] == "PruneStates" else 0, "crash": -1, "audit": "none"})
+            if h["op"] == "Load":
+                # the long chains are built without trace lines: rebuild, then install
+                if state_only:
+                    if hc["boot"]:
+                        raise Undecided("unexpected Load in a restored-store history")
+                    ops.append({"op": "Genesis", "crash": -1, "audit": "silent"})
+                    for x in range(hc["initial"], hc["initial"] + hc["n"]):
+                        ops += [{"op": "SaveABCI", "a": x, "crash": -1, "audit": "silent"},
+                                {"op": "Save", "a": x, "crash": -1, "audit": "silent"}]
+                else:
+                    ops.append({"op": "Genesis", "crash": -1, "audit": "silent"})
+                    for x in range(hc["initial"], hc["maxheight"] + 1):
+                        ops += [{"op": "SaveBlock", "a": x, "crash": -1, "audit": "silent"},
+                                {"op": "ApplyBlock", "a": x, "crash": -1, "audit": "silent"}]
+                ops.append({"op": "Load"})
+                continue
+            a, b = h["a"], h["b"] if h["op"] == "PruneStates" else 0
+            if state_only:      # the state driver takes real heights
+                a = a + off if (h["op"] != "Genesis") else 0
+                b = b + off if h["op"] == "PruneStates" else 0
+            ops.append({"op": h["op"], "a": a, "b": b, "crash": -1, "audit": "none"})
         elif h["ev"] == "Reopen":
-            if h["k"] >= 0 and ops and ops[-1]["crash"] == -1 and ops[-1]["op"] != "Reopen":
+            if h["k"] >= 0 and ops and ops[-1].get("crash") == -1 and ops[-1]["op"] not in ("Reopen", "Load", "Push", "Pop"):
                 ops[-1]["crash"] = h["k"]
             else:
                 ops.append({"op": "Reopen"})
@@ -391,13 +511,16 @@ def replay(ctx, path):
         raise Undecided("empty history in replay file")
     ops[-1]["audit"] = "all"
     inc = not c.get("full", True)
-    if "state" in c["chk"] and "block" not in c["chk"]:
-        raise Undecided("state-only replays are re-run by the whole check (deterministic scenarios): ./check C18")
-    hc = chain.get("hcfg")
-    if not hc:
-        raise Undecided("replay file has no harness chain description")
-    run1 = {"cfg": hc, "ops": ops, "incremental": inc, "sample_every": 1, "label": "replay"}
-    rows, _ = run_harness(ctx, "store", "^TestVerifC18$", {"runs": [run1], "random": 0}, "store.ndjson")
+    if state_only:
+        rows, _ = run_harness(ctx, "state", "^TestVerifC18State$",
+                              {"tier": "quick", "random": 0, "replay": [{"cfg": hc, "ops": ops, "incremental": inc}]},
+                              "state.ndjson")
+    else:
+        run1 = {"cfg": hc, "ops": ops, "incremental": inc, "sample_every": 1, "label": "replay"}
+        if cons:
+            rows, _ = run_harness(ctx, "consensus", "^TestVerifC18Consensus$", {"runs": [run1], "random": 0}, "consensus.ndjson")
+        else:
+            rows, _ = run_harness(ctx, "store", "^TestVerifC18$", {"runs": [run1], "random": 0}, "store.ndjson")
     v = core.validate_traces(ctx, "TMStoreTrace", rows, max_events=100000, timeout=1800, label="replay", heap="4g")
     verdict = core.Verdict(ctx)
     add_verdicts(verdict, v)
